@@ -195,7 +195,7 @@ class Lib:
                 if name == "indices":
                     return LibFn(lambda I2, a, k, n: self.slice_indices(I2, obj, a[0], n), "slice.indices")
             if obj.kind == "super":
-                cls, selfv = obj.fields["cls"], obj.fields["self"]
+                cls, selfv = obj.fields["cls"], obj.fields["inst"]
                 start_cls = selfv.cls if isinstance(selfv, Obj) else (selfv if isinstance(selfv, type) else type(selfv))
                 mro = list(start_cls.__mro__)
                 for k in mro[mro.index(cls) + 1:]:
@@ -205,6 +205,8 @@ class Lib:
                             return raw.__func__ if raw.__func__ is not object.__new__ else LibFn(lambda I2, a, kw, n: Obj(a[0]), "object.__new__")
                         if isinstance(raw, classmethod):
                             return Bound(raw.__func__, start_cls)
+                        if k is dict and isinstance(selfv, Obj) and selfv.store is not None:
+                            return LibFn(lambda I2, a, kw, n, name=name: I2.dict_method(selfv, name, a, kw, n), f"dict.{name}")
                         if raw is object.__init__:
                             return LibFn(lambda I2, a, kw, n: None, "object.__init__")
                         if raw is object.__new__:
@@ -709,6 +711,8 @@ class Lib:
             if x.ndim == 0:
                 I.fail("TypeError", "len() of unsized object", n)
             return x.shape[0]
+        if isinstance(x, Obj) and x.store is not None and not S.is_repo_function(I.lookup_class_attr(x.cls, "__len__")):
+            return len(x.store)
         if isinstance(x, Obj):
             m = I.lookup_class_attr(x.cls, "__len__")
             if m is _MISSING:
@@ -763,7 +767,9 @@ class Lib:
         d = {}
         if a:
             src = a[0]
-            if isinstance(src, dict):
+            if isinstance(src, Obj) and src.store is not None:
+                d.update(src.store)
+            elif isinstance(src, dict):
                 d.update(src)
             else:
                 for kv in I.iterate(src, n):
@@ -1026,15 +1032,20 @@ class Lib:
 
     def b_zip(self, I, a, k, n):
         from .interp import LazyGen
-        if any(isinstance(x, LazyGen) for x in a):
-            finite = [I.iterate(x, n) for x in a if not isinstance(x, LazyGen)]
+
+        def is_lazy(x):
+            return isinstance(x, LazyGen) or (isinstance(x, LibObj) and x.kind == "inf_repeat")
+        if any(is_lazy(x) for x in a):
+            finite = [I.iterate(x, n) for x in a if not is_lazy(x)]
             if not finite:
                 lists = [I.iterate(x, n) for x in a]
             else:
                 m = min(len(x) for x in finite)
                 lists = []
                 for x in a:
-                    if isinstance(x, LazyGen):
+                    if isinstance(x, LibObj) and x.kind == "inf_repeat":
+                        lists.append([x.fields["value"]] * m)
+                    elif isinstance(x, LazyGen):
                         items = []
                         while len(items) < m:
                             v = x.next()
@@ -1106,6 +1117,8 @@ class Lib:
     def b_next(self, I, a, k, n):
         from .interp import LazyGen
         it = a[0]
+        if isinstance(it, LibObj) and it.kind == "inf_repeat":
+            return it.fields["value"]
         if isinstance(it, LazyGen):
             v = it.next()
             if v is LazyGen.DONE:
@@ -1362,6 +1375,9 @@ class Lib:
                 memo[id(v)] = new
                 for kk, vv in v.attrs.items():
                     new.attrs[kk] = dc(vv)
+                if v.store is not None:
+                    for kk, vv in v.store.items():
+                        new.store[kk] = dc(vv)
                 return new
             if isinstance(v, list):
                 if id(v) in memo:
@@ -1448,7 +1464,7 @@ class Lib:
 
     def c_repeat(self, I, a, k, n):
         if len(a) < 2:
-            raise Unsupported("infinite itertools.repeat")
+            return LibObj("inf_repeat", value=a[0])
         return tuple_iter([a[0]] * a[1])
 
     # ------------------------------------------------------------------ real functions
